@@ -38,6 +38,10 @@ FIRST = {
     'x06-C11': 'missed -> S1 unconditional positions',
     'x09-C15': 'idiom alarm only (M2 in C01: vectorcall spelling) -> E2 covers release() into raw slots and throw exits; descriptors recognise the C-API call spelling',
     'x10-C16': 'missed -> new rule I4 (non-induction index must be range-tested)',
+    'y03-C06': 'caught', 'y05-C10': 'caught', 'y10-C20': 'caught',
+    'y09-C19': 'analysis error only (anchor `for f in dataclasses.fields(cls)` wrapped in sorted()) -> DC1 declaration-order',
+    'y04-C09': 'missed -> new rule F11 (two unconditional pairwise passes)',
+    'y07-C17': 'caught by C12 only -> G3 added to C17',
 }
 
 
